@@ -355,6 +355,13 @@ func (f *FuncCtx) assign(l ast.Expr, v Val, env *Env) {
 		case *types.Array:
 			i := f.coerce(f.expr(l.Index, env), types.Typ[types.Int])
 			v = f.coerce(v, u.Elem())
+			if _, ok := byteArray(u); ok {
+				srt := f.S.SortOf(x.Typ)
+				nv := f.freshVal(x.Typ, "barr")
+				f.emit(fmt.Sprintf("(assert (forall ((i!q Int)) (! (= (at_%s %s i!q) (ite (= i!q %s) %s (at_%s %s i!q))) :pattern ((at_%s %s i!q)))))", srt, nv.T, i.T, v.T, srt, x.T, srt, nv.T))
+				f.assign(l.X, nv, env)
+				break
+			}
 			f.assign(l.X, Val{T: fmt.Sprintf("(store %s %s %s)", x.T, i.T, v.T), Typ: x.Typ}, env)
 		default:
 			f.fail("unsupported index assignment on %s", x.Typ)
@@ -808,19 +815,7 @@ func (f *FuncCtx) loopCommon(label string, env *Env, fl *flow, nodes []ast.Node,
 		invs = c.LoopInv[ord]
 	}
 	if c == nil || (len(invs) == 0 && !hasKey(c.LoopInv, ord)) {
-		// no invariant given: the loop is only supported if it provably does not execute
-		for k, v := range ghost {
-			env.names[k] = v
-		}
-		if cond != nil {
-			ct := cond(env)
-			if ct != "" {
-				ee := env.clone()
-				f.obligeIn(prefix+".noiter", "loop.noiter", ee, fmt.Sprintf("(not %s)", ct), "loop without invariant must not iterate", posStr(f.Pkg.Fset, scopePos))
-				f.assume(env, fmt.Sprintf("(not %s)", ct))
-				return env
-			}
-		}
+		// no invariant given: everything after this loop is undecided (never silently skipped)
 		f.fail("loop %d in %s has no invariant", ord, fr.name)
 		return env
 	}
@@ -1005,6 +1000,10 @@ func (f *FuncCtx) rangeStmt(s *ast.RangeStmt, env *Env, fl *flow, label string) 
 		// range over untyped constant int
 		x = f.coerce(x, types.Typ[types.Int])
 	}
+	if strings.HasPrefix(x.T, "(mk_slice ") && strings.HasSuffix(x.T, " 0 true)") {
+		// ranging over a literally empty slice (e.g. no variadic arguments): the body never runs
+		return env
+	}
 	ordNext := f.fr.loopOrd + 1
 	iName := "$i"
 	iNameN := fmt.Sprintf("$i%d", ordNext)
@@ -1058,6 +1057,10 @@ func (f *FuncCtx) rangeStmt(s *ast.RangeStmt, env *Env, fl *flow, label string) 
 			ln = fmt.Sprint(a.Len())
 			elemT = a.Elem()
 			at = func(i string) string { return fmt.Sprintf("(select %s %s)", x.T, i) }
+			if _, ok := byteArray(a); ok {
+				srt := f.S.SortOf(x.Typ)
+				at = func(i string) string { return fmt.Sprintf("(at_%s %s %s)", srt, x.T, i) }
+			}
 		}
 		implicit := func(e *Env) []string {
 			sync(e)
